@@ -270,3 +270,98 @@ def occupancy_mapping(rng, es, flatten_p=0.35, shape_above_p=0.3):
         loop.append(s.pop(0))
     m["loop-order"] = {out: loop}
     return m, syms
+
+
+# ----------------------------------------------------------------------------
+# affine index expressions (C04)
+# ----------------------------------------------------------------------------
+
+def _term(c, v):
+    if c == 1:
+        return v
+    return "%d*%s" % (c, v)
+
+
+def _aff_str(terms):
+    return " + ".join(_term(c, v) for c, v in terms)
+
+
+def gen_affine_einsum(rng, neg_p=0.15, two_d_p=0.25):
+    """O[q] = I[a*q + b*s] * F[s] and 2-D variants; returns dict with access coefficients."""
+    a = rng.choice([1, 1, 1, 2, 2, 3])
+    b = rng.choice([1, 1, 1, 2, 3])
+    if rng.random() < neg_p:
+        b = -b
+    acc = {"W": [(a, "q"), (b, "s")]}
+    if rng.random() < 0.3:
+        order = [(b, "s"), (a, "q")]
+    else:
+        order = [(a, "q"), (b, "s")]
+    if rng.random() < two_d_p:
+        # second, plain convolution dimension
+        decl = {"I": ["H", "W"], "F": ["R", "S"], "O": ["P", "Q"]}
+        expr = "O[p, q] = I[p + r, %s] * F[r, s]" % _aff_str(order)
+        acc["H"] = [(1, "p"), (1, "r")]
+        out_ranks = ["P", "Q"]
+        ranks = ["P", "Q", "R", "S"]
+    else:
+        decl = {"I": ["W"], "F": ["S"], "O": ["Q"]}
+        expr = "O[q] = I[%s] * F[s]" % _aff_str(order)
+        out_ranks = ["Q"]
+        ranks = ["Q", "S"]
+    return {"decl": decl, "expr": expr, "out": "O", "ranks": ranks, "acc": acc, "a": a, "b": b,
+            "shape": {"terms": 1, "take": 0, "scalar": 0, "rank0": 0}}
+
+
+def affine_extents(rng, es, qmax=7, smax=3):
+    ext = {}
+    for r in es["ranks"]:
+        ext[r] = rng.randint(1, qmax if r in ("P", "Q") else smax)
+    for big, terms in es["acc"].items():
+        hi = sum(c * (ext[v.upper()] - 1) for c, v in terms if c > 0)
+        ext[big] = hi + 1
+    return ext
+
+
+def affine_mapping(rng, es, part_p=0.5):
+    """loop order over {Q or W, S} (and {P or H, R}); optional shape partitioning of Q with W following."""
+    out = es["out"]
+    m = {"rank-order": {}, "loop-order": {}}
+    part = {}
+    qlv = ["Q"]
+    wlv = ["W"]
+    kind = "none"
+    syms = {}
+    if rng.random() < part_p:
+        depth = rng.choice([1, 1, 1, 2])
+        ds = []
+        size = rng.randint(2, 4)
+        for i in range(depth):
+            nway = rng.random() < 0.25
+            if rng.random() < 0.5:
+                nm = "Q%sS%d" % ("W" if nway else "U", i)
+                syms[nm] = rng.randint(2, 3) if nway else size
+                ds.append(("nway_shape(%s)" if nway else "uniform_shape(%s)") % nm)
+            else:
+                ds.append("nway_shape(%d)" % rng.randint(2, 3) if nway else "uniform_shape(%d)" % size)
+            size = max(1, size // 2)
+        part["Q"] = ds
+        part["W"] = ["follow(Q)"]
+        qlv = levels_of("Q", depth)
+        wlv = levels_of("W", depth)
+        kind = "%d:%s" % (depth, ",".join(d.split("(")[0] for d in ds))
+    # per level choose to loop over the output level or the input level
+    loop = []
+    nq = len(qlv) if rng.random() < 0.6 else rng.randint(0, len(qlv))
+    for i, (ql, wl) in enumerate(zip(qlv, wlv)):
+        loop.append(ql if i < nq else wl)
+    others = ["S"]
+    if "P" in es["ranks"]:
+        others += [rng.choice(["P", "H"]), "R"]
+    # interleave: keep Q levels in order, insert others anywhere
+    for o in others:
+        loop.insert(rng.randint(0, len(loop)), o)
+    m["loop-order"][out] = loop
+    if part:
+        m["partitioning"] = {out: part}
+    return m, kind, syms
